@@ -30,7 +30,18 @@ RULE = ('exhaustive small scope, then seeded random, then a malformed stream. (1
         'every index over 3 symbols for <= 5 rows (ndarray, Field, indexed-string Field index; sorted or merely '
         'pre-grouped) and Session.distinct on 1-2 arrays. (6) random frames up to 40 rows, 1-3 keys, cardinality <= 5. '
         '(7) malformed: untruthful hint, ragged columns, target = key, unknown names, empty lists, destination name '
-        'clash (model == implementation only; never counted as property cases). HDF5-backed cases cost ~10-25 ms '
+        'clash (model == implementation only; never counted as property cases). (8) KEY VALUES: every key sequence over 3 '
+        'symbols for <= 3 rows (5 symbols for 2 rows) in 10 value flavours whose neighbouring keys differ only in trailing '
+        'blanks / tabs / newlines / case / high bytes (fixed and indexed strings) or sit at both ends of int8 / int64 / uint64 / '
+        'float32 / float64 (signed zeros = one key), group-by + drop_duplicates; 10 mixed pairs of them in both orders over all '
+        'pair sequences <= 2 rows (thorough 3); random frames with 1-3 such keys; Session.aggregate_* / distinct on such arrays '
+        '(by groupby_key_embedding the result must be the image of the result on ranks). (9) HISTORIES on ONE dataframe object: '
+        '11 scripts (group by k; change column k through the field — data[:] = new, clear()+write(), field.apply_index in place — '
+        'or through the dataframe — apply_filter / apply_index / sort_values in place; group by k again; interleaved group-bys on '
+        'other keys, drop_duplicates, repeated calls, rewritten targets) over every (old, new) pair of key sequences over 3 '
+        'symbols for 1-2 rows, 150 sampled pairs of 3 rows (thorough all 729), 60 (thorough 500) random histories of 5-9 events; '
+        'every destination and the final source frame compared. Change-directed (harness/hot.py): new small literals of the '
+        'tree under test are planted as row counts; a changed tree triples the sampled budgets. HDF5-backed cases cost ~10-25 ms '
         'each, hence the row bounds. After every call the whole destination dataframe (names, class / dtype / strlen / '
         'categorical key and content of every column, read through the cached and through fresh Field objects) and the '
         'source dataframe are compared with the model AND with the row-level specification.')
@@ -44,7 +55,7 @@ TRUSTED = ['numpy np.asarray / np.unique(return_inverse) used by _stack_key_colu
 ASSUMPTIONS = ['fields are well-formed (index dataset = prefix sums of entry lengths) and all columns have the same length',
                'keys and targets are totally ordered (no NaN)', 'a sorted hint is truthful',
                'strings contain no NUL characters (numpy S/U arrays drop trailing NULs)']
-LEVEL_TEXT = ('20 theorems in coq/Props/C07.v (all closed under the global context) prove for all inputs (unbounded rows, key '
+LEVEL_TEXT = ('24 theorems in coq/Props/C07.v (all closed under the global context) prove for all inputs (unbounded rows, key '
               'columns, groups, entry lengths, targets, calls): the row-level composition (stable lexicographic sort + spans of '
               'the sorted key rows + ANY per-span reduction = that reduction applied to the members of each distinct key tuple '
               'in original row order, keys ascending; span lengths = group sizes; counts sum to the row count; a sorted input '
@@ -56,7 +67,11 @@ LEVEL_TEXT = ('20 theorems in coq/Props/C07.v (all closed under the global conte
               'groupby_agg_target_correct, groupby_count_correct, drop_duplicates_correct are its per-call parts); '
               'Session.aggregate_count/min/max/first/last (aggregate_correct, aggregate_count_correct, '
               'aggregate_agrees_with_groupby) and Session.distinct (session_distinct_correct) equal their references of '
-              'Spec/GroupSpec.v. The model is tied to the repository by the differential run described in `rule`, where '
+              'Spec/GroupSpec.v; history_correct / history_last_call_alone: in any history of group-bys, in-place writes into '
+              'columns, field- and dataframe-level apply_index / apply_filter / sort_values on one dataframe every group-by '
+              'equals the reference of the frame as it is at the time of the call; groupby_key_embedding / '
+              'agg_by_order_embedding: groups and every aggregate are invariant under any order embedding of the key values. '
+              'The model is tied to the repository by the differential run described in `rule`, where '
               'every case is also judged against the extracted specification.')
 LEVEL_NOTE = ('The coercion performed by numpy when key columns are stacked into one 2-d array happens before any kernel '
               'runs and is outside the model (after fix F-C07b it is rank-preserving); it is covered by the correspondence '
@@ -117,7 +132,22 @@ FLAVOURS = {
     'idxB': ('idx', None, ['a', 'a!', 'aa', 'ab', 'b']),
     'idxC': ('idx', None, ['', 'a', 'a!', 'bé', 'zz']),
     'idxD': ('idx', None, ['aa', 'ab', 'b', 'zz', 'zzz']),
+    # key VALUE classes (TC07): every list is ascending in the order the library must use (bytewise / numeric);
+    # neighbours differ only in trailing blanks / control characters / case / high bytes, or sit at the ends of the dtype
+    'fixW': ('fix', 3, ['ab', 'ab\t', 'ab ', 'b', 'b ']),
+    'fixX': ('fix', 4, ['A', 'a', 'a\n', 'a ', 'a  ']),
+    'fixH': ('fix', 3, ['B', 'a', 'a\x7f', 'a\u00e9', 'b']),
+    'idxW': ('idx', None, ['A', 'a', 'a\t', 'a ', 'b']),
+    'idxH': ('idx', None, [' ', 'a', 'a\x7f', 'a\u00e9', 'a\u20ac']),
+    'i8x': ('num', 'int8', [-128, -127, 0, 126, 127]),
+    'i64x': ('num', 'int64', [-2 ** 63, -2 ** 63 + 1, 0, 2 ** 63 - 2, 2 ** 63 - 1]),
+    'u64x': ('num', 'uint64', [0, 2 ** 53 + 1, 2 ** 63 - 1, 2 ** 64 - 2, 2 ** 64 - 1]),
+    'f64x': ('num', 'float64', [-1e300, -0.0, 0.0, 2.0 ** -1, 1e300]),          # signed zeros are ONE key
+    'f32x': ('num', 'float32', [-2.0 ** 100, -0.5, -0.0, 0.0, 2.0 ** 100]),
 }
+VALUE_FLAVOURS = ['fixW', 'fixX', 'fixH', 'idxW', 'idxH', 'i8x', 'i64x', 'u64x', 'f64x', 'f32x']
+VALUE_PAIRS = [('i64x', 'f64x'), ('i64x', 'u64x'), ('fixW', 'idxW'), ('fixW', 'i32'), ('fixW', 'fixH'), ('idxW', 'idxH'),
+               ('u64x', 'f32x'), ('fixX', 'fixW'), ('i8x', 'i64x'), ('f64x', 'fixX')]
 CAT_KEY = {'a': 0, 'b': 1, 'c': 2, 'd': 3, 'e': 4}
 KEY_FLAVOURS_1 = ['i32', 'big', 'fix2', 'idxA', 'cat', 'ts', 'f64', 'u64', 'i8', 'idxB', 'fix3', 'f32']
 TARGET_TRIPLES = [('i64', 'fix2', 'idxA'), ('f64', 'fix3', 'idxB'), ('cat', 'fix2', 'idxC'), ('ts', 'fix1', 'idxD'),
@@ -197,6 +227,65 @@ def names(l, as_str):
     return r
 
 
+def _do_steps(g, ddf, steps):
+    for st in steps:
+        k = st['k']
+        if k == 'count':
+            r = g.count(ddf, st['wk']) if not st['wk'] else g.count(ddf=ddf)
+        elif k == 'distinct':
+            r = g.distinct(ddf, st['wk'])
+        else:
+            r = getattr(g, k)(names(st['t'], st.get('tstr')), ddf, st['wk'])
+        assert r is ddf
+
+
+def run_hist(ctx, case):
+    """a history of calls on ONE dataframe object (and on its field objects): every group-by goes into a fresh destination"""
+    np = _np
+    df = ctx.newdf()
+    for c in case['cols']:
+        B.add_col(df, c)
+    outs = []
+    for ev in case['evs']:
+        e = ev['e']
+        if e == 'gb':
+            ddf = ctx.newdf()
+            by = names(ev['by'], ev.get('bystr'))
+            g = df.groupby(by, True) if ev['hint'] else df.groupby(by)
+            _do_steps(g, ddf, ev['steps'])
+            outs.append(ddf)
+        elif e == 'dd':
+            ddf = ctx.newdf()
+            r = df.drop_duplicates(names(ev['by'], ev.get('bystr')), ddf, ev['hint'])
+            assert r is ddf
+            outs.append(ddf)
+        elif e == 'write':
+            f = df['c%d' % ev['name']]
+            c = ev['col']
+            new = list(c['data']) if c['kind'] == 'idx' else B.np_data(c)
+            if ev['how'] == 'slice':
+                f.data[:] = new                   # same field object, same length
+            else:
+                f.data.clear()
+                f.data.write(new)
+            assert df['c%d' % ev['name']] is f
+        elif e == 'findex':
+            f = df['c%d' % ev['name']]
+            f.apply_index(np.array(ev['idx'], dtype=np.int64), in_place=True)
+        elif e == 'filter':
+            r = df.apply_filter(np.array(ev['flt'], dtype=bool))
+            assert r is df
+        elif e == 'index':
+            r = df.apply_index(np.array(ev['idx'], dtype=np.int64))
+            assert r is df
+        elif e == 'sort':
+            r = df.sort_values(names(ev['by'], ev.get('bystr')))
+            assert r is df
+        else:
+            raise ValueError(e)
+    return [[canon_frame(ctx, d, dest_code) for d in outs], canon_frame(ctx, df, lambda n: int(n[1:]))]
+
+
 def run(case):
     op = case['op']
     np = _np
@@ -213,16 +302,10 @@ def run(case):
                 assert r is ddf
             else:
                 g = df.groupby(by, case['hint']) if case['hint'] else df.groupby(by)
-                for st in case['steps']:
-                    k = st['k']
-                    if k == 'count':
-                        r = g.count(ddf, st['wk']) if not st['wk'] else g.count(ddf=ddf)
-                    elif k == 'distinct':
-                        r = g.distinct(ddf, st['wk'])
-                    else:
-                        r = getattr(g, k)(names(st['t'], st.get('tstr')), ddf, st['wk'])
-                    assert r is ddf
+                _do_steps(g, ddf, case['steps'])
             return [canon_frame(ctx, ddf, dest_code), canon_frame(ctx, df, lambda n: int(n[1:]))]
+        if op == 'hist':
+            return run_hist(ctx, case)
         if op == 'agg':
             ix = case['index']
             if ix['kind'] == 'arr':
@@ -283,18 +366,44 @@ def index_column_wire(ix):
     return [0, w[3]]
 
 
+def _steps_wire(sts):
+    steps = []
+    for st in sts:
+        k = st['k']
+        kind = 0 if k == 'count' else 1 if k == 'distinct' else 2
+        steps.append([kind, AGG_CODE.get(k, 0), st['t'], 1 if st['wk'] else 0])
+    return steps
+
+
 def to_val(case):
     op = case['op']
     if op == 'gb':
         cols = [[c['name'], B.col_to_wire(c)] for c in case['cols']]
         if case.get('dd'):
             return [2, cols, case['by'], 1 if case['hint'] else 0, []]
-        steps = []
-        for st in case['steps']:
-            k = st['k']
-            kind = 0 if k == 'count' else 1 if k == 'distinct' else 2
-            steps.append([kind, AGG_CODE.get(k, 0), st['t'], 1 if st['wk'] else 0])
-        return [1, cols, case['by'], 1 if case['hint'] else 0, [], steps]
+        return [1, cols, case['by'], 1 if case['hint'] else 0, [], _steps_wire(case['steps'])]
+    if op == 'hist':
+        cols = [[c['name'], B.col_to_wire(c)] for c in case['cols']]
+        evs = []
+        for ev in case['evs']:
+            e = ev['e']
+            if e == 'gb':
+                evs.append([0, ev['by'], 1 if ev['hint'] else 0, _steps_wire(ev['steps'])])
+            elif e == 'dd':
+                evs.append([1, ev['by'], 1 if ev['hint'] else 0])
+            elif e == 'write':
+                evs.append([2, ev['name'], B.col_to_wire(ev['col'])])
+            elif e == 'findex':
+                evs.append([3, ev['name'], ev['idx']])
+            elif e == 'filter':
+                evs.append([4, ev['flt']])
+            elif e == 'index':
+                evs.append([5, ev['idx']])
+            elif e == 'sort':
+                evs.append([6, ev['by']])
+            else:
+                raise ValueError(e)
+        return [5, cols, evs]
     if op == 'agg':
         a = -1 if case['a'] == 'count' else AGG_CODE[case['a']]
         return [3, a, index_column_wire(case['index']), case['target'], [] if case['dest'] is None else [case['dest']]]
@@ -398,6 +507,9 @@ def features(case, model):
                     if any('' in [c['data'][i] for i in p] and len(p) > 1 for p in pos.values()):
                         f.append('%s-%s:empty-string-in-group' % (c['kind'], st['k']))
         if len(case.get('steps', [])) > 1: f.append('several-calls-one-ddf')
+        f += _value_features(rows, [cols[k] for k in case['by']], srt)
+    elif op == 'hist':
+        f += _hist_features(case)
     elif op == 'agg':
         f.append('agg:' + case['a'])
         ix = case['index']
@@ -413,6 +525,131 @@ def features(case, model):
         f.append('distinct:%d-fields' % len(case['fields']) + ('/field=' if case.get('single') else ''))
         f.append('distinct:' + '+'.join(fc['fl'] for fc in case['fields']))
     return f
+
+
+def _kv(c, x):
+    return x.encode() if c['kind'] in ('idx', 'fix') else x
+
+
+WS = b' \t\n\r\x0b\x0c\x00'
+
+
+def _value_features(rows, kcols, srt):
+    """which key-VALUE classes a case reaches (rows = key tuples in row order)"""
+    f = []
+    for j, c in enumerate(kcols):
+        vals = [r[j] for r in rows]
+        if c['kind'] in ('fix', 'idx'):
+            st = [v.rstrip(WS) for v in vals]
+            if any(a != b and x == y for a, b, x, y in zip(vals, vals[1:], st, st[1:])):
+                f.append('keyval:adjacent-keys-differ-only-in-trailing-blanks')
+            if any(a > b and x == y for a, b, x, y in zip(vals, vals[1:], st, st[1:])):
+                f.append('keyval:descending-pair-equal-after-strip')
+                if all(x <= y for x, y in zip(st, st[1:])):
+                    f.append('keyval:unsorted-bytewise-but-sorted-after-strip')
+            if any(a != b and a.lower() == b.lower() for a in vals for b in vals):
+                f.append('keyval:keys-differ-only-in-case')
+            if any(any(ch >= 0x80 for ch in v) for v in vals):
+                f.append('keyval:high-bytes')
+        elif c['kind'] == 'num':
+            import struct
+            dt = c['dtype']
+            if dt.startswith('float'):
+                if any(v == 0 and struct.pack('>d', v)[0] & 0x80 for v in vals) and any(v == 0 and not struct.pack('>d', v)[0] & 0x80 for v in vals):
+                    f.append('keyval:signed-zeros-one-group')
+                if any(abs(v) >= 2.0 ** 99 for v in vals):
+                    f.append('keyval:float-extreme')
+            elif dt != 'bool':
+                bits = int(''.join(ch for ch in dt if ch.isdigit()))
+                lo, hi = (0, 2 ** bits - 1) if dt.startswith('u') else (-2 ** (bits - 1), 2 ** (bits - 1) - 1)
+                if any(v in (lo, hi) for v in vals) and bits >= 8:
+                    f.append('keyval:dtype-extreme')
+                if any(abs(v) > 2 ** 53 for v in vals) and len(kcols) > 1:
+                    f.append('keyval:beyond-2^53-in-multi-key')
+    return sorted(set(f))
+
+
+def _hist_sim(case):
+    """replays a history on the python side: yields (event, key rows seen by the event or None, {name: col})"""
+    cur = {c['name']: dict(c, data=list(c['data'])) for c in case['cols']}
+    out = []
+    for ev in case['evs']:
+        e = ev['e']
+        n = len(next(iter(cur.values()))['data']) if cur else 0
+        rows = None
+        if e in ('gb', 'dd', 'sort'):
+            try:
+                rows = [tuple(_kv(cur[k], cur[k]['data'][i]) for k in ev['by']) for i in range(n)]
+            except (KeyError, IndexError):
+                rows = None
+        out.append((ev, rows, {k: list(v['data']) for k, v in cur.items()}))
+        if e == 'write':
+            cur[ev['name']]['data'] = list(ev['col']['data'])
+        elif e == 'findex':
+            d = cur[ev['name']]['data']
+            cur[ev['name']]['data'] = [d[i] for i in ev['idx']]
+        elif e == 'filter':
+            for c in cur.values():
+                c['data'] = [x for x, m in zip(c['data'], ev['flt']) if m]
+        elif e == 'index':
+            for c in cur.values():
+                c['data'] = [c['data'][i] for i in ev['idx']]
+        elif e == 'sort' and rows is not None:
+            order = sorted(range(n), key=lambda i: rows[i])
+            for c in cur.values():
+                c['data'] = [c['data'][i] for i in order]
+    return out
+
+
+def _partition(rows):
+    pos = {}
+    for i, r in enumerate(rows):
+        pos.setdefault(r, []).append(i)
+    return sorted(pos.items())
+
+
+def _hist_features(case):
+    f = []
+    try:
+        tr = _hist_sim(case)
+    except Exception:
+        return ['hist:unsimulated']
+    f.append('hist:events=%s' % (len(tr) if len(tr) < 8 else '8+'))
+    last = {}          # (by, hint) -> (partition, index of the event)
+    cols = {c['name']: c for c in case['cols']}
+    ngb = 0
+    for i, (ev, rows, snap) in enumerate(tr):
+        e = ev['e']
+        f.append('hist:ev=' + e + ('/' + ev['how'] if e == 'write' else ''))
+        if e in ('gb', 'dd') and rows is not None:
+            ngb += 1
+            srt = all(rows[j] <= rows[j + 1] for j in range(len(rows) - 1))
+            f.append('hist:path:' + ('hint' if ev['hint'] else 'sorted-checked' if srt else 'unsorted->stable-sort'))
+            f += ['hist:' + x for x in _value_features(rows, [cols[k] for k in ev['by']], srt)]
+            key = (tuple(ev['by']), bool(ev['hint']))
+            part = _partition(rows)
+            if key in last:
+                between = tr[last[key][1] + 1:i]
+                kinds = set()
+                for (ev2, _, _) in between:
+                    if ev2['e'] in ('write', 'findex'):
+                        kinds.add(ev2['e'] + ('-key' if ev2['name'] in ev['by'] else '-other'))
+                    elif ev2['e'] in ('filter', 'index', 'sort'):
+                        kinds.add('df-' + ev2['e'])
+                    else:
+                        kinds.add('groupby-other-keys' if tuple(ev2['by']) != key[0] else 'groupby-same-keys')
+                changed = part != last[key][0]
+                if not kinds:
+                    f.append('hist:regroup-same-keys-nothing-between')
+                for k2 in kinds:
+                    f.append('hist:regroup-same-keys-after:' + k2)
+                if kinds & {'write-key', 'findex-key'} and not (kinds & {'df-filter', 'df-index', 'df-sort'}):
+                    f.append('hist:key-changed-through-field-only' + ('/grouping-differs' if changed else '/grouping-same'))
+                    if len(part) != len(last[key][0]):
+                        f.append('hist:key-changed-through-field-only/group-count-differs')
+            last[key] = (part, i)
+    f.append('hist:groupbys=%s' % (ngb if ngb < 5 else '5+'))
+    return sorted(set(f))
 
 
 def nontrivial(case, model):
@@ -605,6 +842,83 @@ def gen(tier, rng):
             tn.append(nk + j)
         srt = is_sorted_syms(ks)
         yield {'op': 'gb', 'cols': cols, 'by': list(range(nk)), 'hint': srt and rng.random() < 0.5, 'steps': all_steps(tn)}
+    # (8) key VALUE classes: the model works on an order-preserving integer encoding, so by groupby_key_embedding the
+    #     result on concrete values must be the image of the result on ranks: every key sequence over 3 symbols for
+    #     <= 3 rows (and over 5 symbols for <= 2 rows) in every value flavour; drop_duplicates on the same
+    from harness import hot
+    boost = 3 if hot.changed() else 1
+    for fl in VALUE_FLAVOURS:
+        allks = [ks for n in range(0, 4) for ks in seqs(3, n)] + [ks for ks in seqs(5, 2) if max(ks) > 2]
+        if big:
+            allks += list(seqs(3, 4)) + [ks for ks in seqs(5, 3) if max(ks) > 2]
+        for ks in allks:
+            cnt += 1
+            n = len(ks)
+            ts = [rng.randrange(3) for _ in range(n)]
+            srt = is_sorted_syms([ks])
+            c = gb_case([list(ks)], [fl], ts, TARGET_TRIPLES[cnt % len(TARGET_TRIPLES)], srt and cnt % 2 == 0,
+                        steps=rot_steps([1, 2, 3], cnt), bystr=(cnt % 5 == 0))
+            yield c
+            if cnt % 3 == 0:
+                yield gb_case([list(ks)], [fl], [0] * n, (), srt and cnt % 4 == 0, steps=[], dd=True)
+    for fls in VALUE_PAIRS:
+        for n in range(0, 4 if big else 3):
+            for rows in itertools.product(pairs, repeat=n):
+                cnt += 1
+                k0 = [r[0] for r in rows]; k1 = [r[1] + (2 if cnt % 4 == 0 else 0) for r in rows]
+                ts = [rng.randrange(3) for _ in range(n)]
+                for order in ((0, 1), (1, 0)):
+                    kk = [k0, k1] if order == (0, 1) else [k1, k0]
+                    ff = (fls[order[0]], fls[order[1]])
+                    yield gb_case(kk, ff, ts, TARGET_TRIPLES[cnt % len(TARGET_TRIPLES)][:2], is_sorted_syms(kk) and cnt % 2 == 0,
+                                  steps=[{'k': AGGS[cnt % 4], 't': [2, 3], 'wk': True}, {'k': 'count', 't': [], 'wk': False}])
+    for _ in range((200 if big else 40) * boost):
+        cnt += 1
+        n = rng.randint(4, 12)
+        nk = rng.choice([1, 1, 2, 3])
+        fls = [rng.choice(VALUE_FLAVOURS) for _ in range(nk)]
+        ks = [[rng.randrange(5) for _ in range(n)] for _ in range(nk)]
+        if rng.random() < 0.3:
+            order = sorted(range(n), key=lambda i: tuple(k[i] for k in ks))
+            ks = [[k[i] for i in order] for k in ks]
+        yield gb_case(ks, fls, [rng.randrange(3) for _ in range(n)], rng.choice(TARGET_TRIPLES), False,
+                      steps=rot_steps([nk, nk + 1, nk + 2], cnt))
+    # Session.aggregate_* / Session.distinct on fixed-string arrays whose entries differ only in trailing blanks
+    for n in range(0, 4):
+        for ks in seqs(3, n):
+            cnt += 1
+            index = {'kind': 'S', 'data': [['a', 'a\t', 'a '][s_] for s_ in ks]}
+            for a in ['count'] + AGGS:
+                yield {'op': 'agg', 'a': a, 'index': index, 'target': [rng.choice([5, -3, 9, 0]) for _ in range(n)], 'dest': None}
+            yield {'op': 'distinct', 'fields': [{'fl': ['fixW', 'fixX', 'fixH', 'i64x', 'u64x'][cnt % 5], 'v': list(ks)}], 'single': cnt % 2 == 0}
+    # (9) HISTORIES on one dataframe object: group by a key, change the key column THROUGH THE FIELD (same field object:
+    #     data[:] = new, clear()+write(), field-level apply_index in place) or through the dataframe (apply_filter /
+    #     apply_index / sort_values in place), group by the same key again; interleaved with group-bys on other keys,
+    #     drop_duplicates, repeated calls.  Every (old, new) pair of key sequences over 3 symbols for 2 rows, a seeded
+    #     sample (thorough: all) for 3 rows, then random histories.
+    hist_fl = KEY_FLAVOURS_1 + VALUE_FLAVOURS
+    hcnt = 0
+    pairs_on = [(o, nw) for n in (1, 2) for o in seqs(3, n) for nw in seqs(3, n)]
+    p3 = [(o, nw) for o in seqs(3, 3) for nw in seqs(3, 3)]
+    pairs_on += p3 if big else rng.sample(p3, 150 * boost)
+    for (o, nw) in pairs_on:
+        hcnt += 1
+        yield hist_case(rng, hcnt, hist_fl[hcnt % len(hist_fl)], list(o), list(nw), hcnt % len(HIST_SCRIPTS))
+    for _ in range((500 if big else 60) * boost):
+        hcnt += 1
+        n = rng.randint(3, 8)
+        yield hist_case(rng, hcnt, rng.choice(hist_fl), [rng.randrange(3) for _ in range(n)], None, None)
+    # change-directed: a small literal that is new in the tree under test is planted as row count of group-bys / histories
+    for K in hot.hot_sizes():
+        if K > 300:
+            continue
+        for n in sorted({max(K - 1, 1), K, K + 1, 2 * K}):
+            for rep in range(3):
+                hcnt += 1
+                yield hist_case(rng, hcnt, hist_fl[hcnt % len(hist_fl)], [rng.randrange(4) for _ in range(n)], None, None)
+                fl = rng.choice(VALUE_FLAVOURS + KEY_FLAVOURS_1)
+                yield gb_case([[rng.randrange(5) for _ in range(n)]], [fl], [rng.randrange(3) for _ in range(n)],
+                              TARGET_TRIPLES[hcnt % len(TARGET_TRIPLES)], False, steps=rot_steps([1, 2, 3], hcnt))
     # (7) malformed stream (outside the property's precondition; model == implementation only)
     base = gb_case([[1, 0, 1]], ['i32'], [0, 1, 2], TARGET_TRIPLES[0], False)
     yield dict(base, hint=True, malformed='untruthful-hint')
@@ -633,16 +947,97 @@ def gen(tier, rng):
     yield {'op': 'agg', 'a': 'first', 'index': {'kind': 'arr', 'data': [0, 0, 1]}, 'target': [1, 2, 3, 4], 'dest': None}
 
 
+# ----------------------------------------------------------------------------- histories
+# scripts over the columns 0 (key, rewritten), 1 (second key, i32), 2 (int64 target), 3 (string target)
+HIST_SCRIPTS = [
+    ['gb0', 'w0', 'gb0'],
+    ['dd0', 'w0', 'dd0', 'gb0'],
+    ['gb0', 'fi0', 'gb0'],
+    ['gb0', 'gb1', 'w0', 'gb0', 'gb01'],
+    ['gb01', 'w1', 'gb01', 'w0', 'gb01'],
+    ['gb0', 'sort0', 'gb0', 'w0', 'gb0'],
+    ['gb0', 'filter', 'gb0', 'index', 'gb0'],
+    ['gb0', 'w2', 'gb0', 'w0', 'gb0'],
+    ['gb0', 'gb0', 'w0', 'gb0', 'gb0'],
+    ['gb10', 'w0', 'gb10', 'fi1', 'gb10', 'dd10'],
+    ['sort0', 'gb0', 'w0', 'gb0', 'sort0', 'gb0'],
+]
+HIST_MENU = ['gb0', 'gb0', 'gb1', 'gb01', 'dd0', 'dd01', 'w0', 'w0', 'w1', 'w2', 'fi0', 'fi1', 'filter', 'index', 'sort0', 'sort1', 'sort01']
+
+
+def hist_case(rng, cnt, fl, old, new, script):
+    """builds a VALID history (equal column lengths, truthful hints) by following the data on the python side"""
+    n = len(old)
+    fls = {0: fl, 1: 'i32', 2: 'i64', 3: ['idxA', 'fix2', 'idxC', 'fix3'][cnt % 4]}
+    cols = [col(0, fl, old), col(1, 'i32', [rng.randrange(2) for _ in range(n)]),
+            col(2, 'i64', [rng.randrange(4) for _ in range(n)]), col(3, fls[3], [rng.randrange(3) for _ in range(n)])]
+    if script is None:
+        ops = [rng.choice(HIST_MENU) for _ in range(rng.randint(4, 8))]
+        ops.append('gb0')
+    else:
+        ops = HIST_SCRIPTS[script]
+    case = {'op': 'hist', 'cols': cols, 'evs': []}
+    first_w0 = True
+    for i, o in enumerate(ops):
+        # the data as it is now
+        tr = _hist_sim(dict(case, evs=case['evs'] + [{'e': 'nop'}]))
+        snap = tr[-1][2]
+        cn = len(snap[0])
+        if o.startswith('gb') or o.startswith('dd') or o.startswith('sort'):
+            by = [int(ch) for ch in o.lstrip('gbdsort')]
+            rows = [tuple(_kv(cols[k], snap[k][j]) for k in by) for j in range(cn)]
+            srt = all(rows[j] <= rows[j + 1] for j in range(cn - 1))
+            if o.startswith('sort'):
+                case['evs'].append({'e': 'sort', 'by': by, 'bystr': (cnt + i) % 3 == 0})
+            elif o.startswith('dd'):
+                case['evs'].append({'e': 'dd', 'by': by, 'hint': srt and (cnt + i) % 2 == 0})
+            else:
+                t = [k for k in (2, 3) if k not in by]
+                tt = [t[(cnt + i) % len(t)]]
+                case['evs'].append({'e': 'gb', 'by': by, 'hint': srt and (cnt // 2 + i) % 3 == 0, 'bystr': (cnt + i) % 4 == 0,
+                                    'steps': [{'k': AGGS[(cnt + i) % 4], 't': tt, 'wk': True}, {'k': 'count', 't': [], 'wk': False}]})
+        elif o[0] == 'w':
+            name = int(o[1:])
+            if name == 0 and new is not None and len(new) == cn and first_w0:
+                syms = list(new)
+                first_w0 = False
+            else:
+                syms = [rng.randrange(3) for _ in range(cn)]
+            c = col(name, fls[name], syms)
+            how = 'slice' if (c['kind'] != 'idx' and (cnt + i) % 2 == 0) else 'clearwrite'
+            case['evs'].append({'e': 'write', 'name': name, 'col': c, 'how': how})
+        elif o in ('fi0', 'fi1'):
+            idx = [rng.randrange(cn) for _ in range(cn)] if (cnt + i) % 2 else rng.sample(range(cn), cn)
+            case['evs'].append({'e': 'findex', 'name': int(o[2:]), 'idx': idx})
+        elif o == 'filter':
+            case['evs'].append({'e': 'filter', 'flt': [1 if rng.random() < 0.7 else 0 for _ in range(cn)]})
+        elif o == 'index':
+            m = rng.randint(max(cn - 1, 0), cn + 1) if cn else 0
+            case['evs'].append({'e': 'index', 'idx': [rng.randrange(cn) for _ in range(m)] if cn else []})
+    return case
+
+
 def skip(case, mode):
     """quick tier: the HDF5-heavy dataframe cases run interpreted (nojit) for every third case only"""
     import hashlib, json
-    if case['op'] != 'gb' or mode == 'jit' or _TIER == 'thorough':
+    if case['op'] not in ('gb', 'hist') or mode == 'jit' or _TIER == 'thorough':
         return False
     h = int(hashlib.sha256(json.dumps(case, sort_keys=True).encode()).hexdigest()[:8], 16)
     return h % 3 != 0
 
 
 def shrink(case):
+    if case['op'] == 'hist':
+        evs = case['evs']
+        for i in range(len(evs)):
+            if evs[i]['e'] in ('filter',):
+                continue
+            yield dict(case, evs=evs[:i] + evs[i + 1:])
+        for i, ev in enumerate(evs):
+            if ev['e'] == 'gb' and len(ev['steps']) > 1:
+                for st in ev['steps']:
+                    yield dict(case, evs=evs[:i] + [dict(ev, steps=[dict(st, wk=True)])] + evs[i + 1:])
+        return
     if case['op'] != 'gb':
         return
     if len(case.get('steps', [])) > 1:
